@@ -71,11 +71,11 @@ def other_class(case, fnd, ev):
         rules = [scan.classify(x.raw) for x in scan.rules(body_of(text))] if text else []
         kind = {'cap': 'capability', 'net': 'network', 'unix': 'unix', 'signal': 'signal', 'ptrace': 'ptrace', 'dbus': 'dbus', 'mount': 'mount', 'remount': 'remount',
                 'umount': 'umount', 'pivotroot': 'pivot_root', 'mqueue': 'mqueue', 'io_uring': 'io_uring', 'userns': 'userns', 'rlimit': 'set', 'change_onexec': 'change_profile',
-                'change_profile': 'change_profile', 'rlimit-nice': 'set'}[r['class']]
+                'change_profile': 'change_profile', 'rlimit-nice': 'set', 'rlimit-two': 'set'}[r['class']]
         want = {'cap': ['capname'], 'net': ['family', 'sock_type'], 'unix': ['sock_type', 'addr', 'peer_addr', 'peer'], 'signal': ['signal', 'peer', 'requested_mask'],
                 'ptrace': ['peer', 'requested_mask'], 'dbus': ['bus', 'path', 'interface', 'member', 'mask', 'peer_label'], 'mount': ['fstype', 'srcname', 'name'],
                 'remount': ['name'], 'umount': ['name'], 'pivotroot': ['name', 'srcname'], 'mqueue': ['name'], 'io_uring': ['requested'], 'userns': [], 'rlimit': ['rlimit', 'value'],
-                'change_onexec': ['target'], 'change_profile': ['name'], 'rlimit-nice': ['rlimit']}[r['class']]
+                'change_onexec': ['target'], 'change_profile': ['name'], 'rlimit-nice': ['rlimit'], 'rlimit-two': ['rlimit']}[r['class']]
         audit = f.get('apparmor') == 'AUDIT'
         ok = False
         for c in rules:
@@ -86,6 +86,12 @@ def other_class(case, fnd, ev):
             vals = [v for k in want if f.get(k) for v in ([f[k]] if k in ('name', 'srcname', 'target') else f[k].split())]
             if r['class'] == 'dbus' and f.get('name') and f['mask'] != 'bind':
                 pass        # the peer name may legitimately be generalised (:1.42 -> @{busname})
+            if r['class'] == 'rlimit-two':
+                # the LAST rule of the resource is the one AppArmor keeps: it must allow this request
+                last = [x for x in rules if x['kind'] == 'set' and f['rlimit'] in x['tokens']][-1]
+                m = re.search(r'<=\s*(\d+)', ' '.join(last['tokens']))
+                if not (m and int(m.group(1)) >= int(f['value'])):
+                    continue
             if r['class'] == 'rlimit-nice':
                 # the rule must allow the recorded request: AppArmor reads `nice <= n` as the kernel value n + 20
                 m = re.search(r'<=\s*(-?\d+)', flat)
